@@ -21,6 +21,8 @@ CLAIMED = {
             "and whose KKT certificates Coq re-checks exactly. Correspondence + direct oracle on random "
             "matrices of all categories, f32/f64.",
             "DESIGN.md §8 C03",
+            "Instance gap closed by theorem for the sqrt-free models (kktb, UPGrad, DualProj, MGDA, PCGrad, GradDrop, "
+            "Random, TrimmedMean: TransferAggProofs.v: Q2R preserves 0,1,+,-,*,/,<=,<). "
             "Trusted: Coq kernel + classical-reals axioms of the stdlib (listed in evidence), the Agg.v model "
             "(tied by correspondence), quadprog and LAPACK svd (checked per case against exact answers), float "
             "rounding (tolerances). The explanatory 'projection onto the dual cone' clause is proved for the unregularised problem "
